@@ -124,6 +124,15 @@ class AWorld:
         self.listener = ServerRecorder(self.log, self.reject)
         self.entry = entry if entry is not None else gen_subscribe_entry(vc, name + ".entry", shapes=shapes)
         self.service = SCFG.gen_service_with_groups(vc, name + ".service", [self.entry.minver_or_counter % 65536])
+        if vc.native and vc.bool(name + ".service_is_the_one_the_entry_names"):
+            # generated ids hardly ever coincide: a bounded search needs the matching case named
+            self.service = C.Service(
+                service_id=self.entry.service_id,
+                instance_id=self.entry.instance_id,
+                major_version=self.entry.major_version,
+                minor_version=self.service.minor_version,
+                eventgroups=frozenset([self.entry.minver_or_counter % 65536]),
+            )
         self.inst = SD.ServiceInstance(self.service, self.listener, self.ann, self.prot.timings)
         self.running = vc.bool(name + ".running")
         if self.running:
